@@ -249,6 +249,9 @@ Proof.
   - (* relpath of an absolute member name is outside the model: nothing happens *)
     unfold relpath, resolve in H. rewrite Hs in H. discriminate.
   - destruct (relpath_below name root Hu Hne Hnd Hs) as [Y [Hrel HY]]. rewrite Hrel in H. cbn [rbind] in H.
+    destruct (ends_slash name).
+    { (* a directory member only creates directories *)
+      intros p n _ Hg. apply (makedirs_lex_only_adds _ _ _ _ H). exact Hg. }
     destruct (fs_makedirs_lex [] (dirname (pjoin2 (joinw slash (job_dir id)) (rel_text Y))) d) as [d1| |] eqn:Em;
       cbn [rbind] in H; try discriminate.
     rewrite (write_location id Y Hid HY) in H.
@@ -346,4 +349,68 @@ Proof.
     + right. apply str_eqb_eq in H. subst. apply is_prefix_refl.
   - right. unfold startswith in H. apply str_prefix_spec in H. destruct H as [x Hx]. unfold slash in Hx.
     rewrite <- app_assoc in Hx. simpl in Hx. subst r. rewrite split_app_sep. apply is_prefix_app.
+Qed.
+
+(* ------------------------------------------------------------------ directory members (a52f9e0):
+   a member whose name ends with '/' becomes a directory at the right place in the job *)
+Lemma prefixes_from_last : forall p pre, p <> [] -> exists l, prefixes_from pre p = l ++ [pre ++ p].
+Proof.
+  induction p as [|x p IH]; intros pre H; [congruence|]. simpl.
+  destruct p as [|y p].
+  - exists []. reflexivity.
+  - destruct (IH (pre ++ [x])) as [l El]; [discriminate|]. rewrite El. exists ((pre ++ [x]) :: l).
+    rewrite <- app_assoc. reflexivity.
+Qed.
+
+Lemma lex_prefixes_last : forall cs pre, cs <> [] -> exists l, lex_prefixes pre cs = l ++ [pre ++ cs].
+Proof.
+  induction cs as [|x cs IH]; intros pre H; [congruence|]. simpl.
+  destruct cs as [|y cs].
+  - exists []. reflexivity.
+  - destruct (IH (pre ++ [x])) as [l El]; [discriminate|]. rewrite El. exists ((pre ++ [x]) :: l).
+    rewrite <- app_assoc. reflexivity.
+Qed.
+
+Lemma mkdir_p_isdir : forall p f g, fs_mkdir_p p f = ROk g -> p <> [] -> fs_get p g = Some None.
+Proof.
+  intros p f g H Hp. rewrite fs_mkdir_p_unfold in H. unfold prefixes in H.
+  destruct (prefixes_from_last p [] Hp) as [l El]. simpl in El. rewrite El in H.
+  rewrite fold_left_app in H. cbn [fold_left] in H.
+  unfold mkdir_step at 1 in H.
+  match type of H with (do g0 <- ?F; _) = _ => remember F as r eqn:Er; clear Er; destruct r as [g1| |] end;
+    cbn [rbind] in H; try discriminate.
+  destruct (fs_get p g1) as [[c|]|] eqn:E; inversion H; subst.
+  - exact E.
+  - apply fs_get_set_same.
+Qed.
+
+Lemma makedirs_lex_isdir : forall base s f g p,
+  fs_makedirs_lex base s f = ROk g -> resolve_comps (rev base) (split 47 s) = Some p -> p <> [] ->
+  fs_get p g = Some None.
+Proof.
+  intros base s f g p H Hr Hp. unfold fs_makedirs_lex in H.
+  destruct (lex_prefixes_last (split 47 s) [] (split_nonempty 47 s)) as [l El]. simpl in El. rewrite El in H.
+  rewrite fold_left_app in H. cbn [fold_left] in H.
+  match type of H with (do g0 <- ?F; _) = _ => remember F as r eqn:Er; clear Er; destruct r as [g1| |] end;
+    cbn [rbind] in H; try discriminate.
+  rewrite Hr in H. eapply mkdir_p_isdir; eauto.
+Qed.
+
+Theorem zip_dir_member_created : forall ms root id d name d',
+  is_job_id id = true ->
+  zip_under name root = true -> str_eqb name root = false ->
+  no_dotdot (split 47 name) = true -> starts_slash name = false ->
+  ends_slash name = true ->
+  zip_copy_one ms root id d name = ROk d' ->
+  exists Y, relpath name root = ROk (rel_text Y) /\ Forall comp_ok Y
+            /\ fs_get (job_dir id ++ Y) d' = Some None
+            /\ only_adds d d'.
+Proof.
+  intros ms root id d name d' Hid Hu Hne Hnd Hs He H. unfold zip_copy_one in H.
+  destruct (relpath_below name root Hu Hne Hnd Hs) as [Y [Hrel HY]]. rewrite Hrel in H. cbn [rbind] in H.
+  rewrite He in H. exists Y. repeat split; auto.
+  - pose proof (write_location id Y Hid HY) as Hw. unfold resolve in Hw.
+    destruct (starts_slash (pjoin2 (joinw slash (job_dir id)) (rel_text Y))); [discriminate|].
+    eapply makedirs_lex_isdir; eauto. rewrite job_dir_eq. discriminate.
+  - eapply makedirs_lex_only_adds; eauto.
 Qed.
